@@ -1624,4 +1624,52 @@ theorem inv_reachable {cfg : Cfg} {nw : Nat} {s : State} (h : Reachable cfg nw s
   | init => exact inv_init nw
   | step a _ hs ih => exact inv_step ih hs
 
+/-! ### the identity machine (tid cache and buffer ownership) -/
+
+/-- invariant: the cache is empty or holds the thread's own tid, the thread fills its own buffers, and what a vfork
+    in flight has put aside for the parent are the parent's own buffers -/
+def IdInv (s : Ident) : Prop :=
+  (s.cache = 0 ∨ s.cache = s.ktid) ∧ s.bufs = s.ktid ∧ ∀ p k b, s.saved = some (p, k, b) → b = k
+
+theorem idInv_own {s : Ident} (h : IdInv s) : s.msgTid = s.ktid ∧ s.bufs = s.ktid := by
+  obtain ⟨hc, hb, _⟩ := h
+  refine ⟨?_, hb⟩
+  unfold Ident.msgTid
+  rcases hc with hc | hc
+  · simp [hc]
+  · split <;> simp_all
+
+theorem idStep_inv {s : Ident} (h : IdInv s) (o : IdOp) : IdInv (idStep {} s o) := by
+  obtain ⟨hc, hb, hs⟩ := h
+  cases o with
+  | gettid =>
+    refine ⟨?_, hb, hs⟩
+    right
+    exact (idInv_own ⟨hc, hb, hs⟩).1
+  | vfork c =>
+    refine ⟨Or.inr rfl, rfl, ?_⟩
+    intro p k b e
+    have e' : (s.pid, s.ktid, s.bufs) = (p, k, b) := by simpa [idStep] using e
+    injection e' with _ e'
+    injection e' with e2 e3
+    rw [← e2, ← e3]; exact hb
+  | vforkDone stale =>
+    simp only [idStep]
+    cases hsv : s.saved with
+    | none => exact ⟨hc, hb, hs⟩
+    | some x =>
+      obtain ⟨p, k, b⟩ := x
+      have hbk := hs p k b hsv
+      simp only [Bool.not_true, Bool.and_false, Bool.false_eq_true, if_false]
+      exact ⟨Or.inl rfl, hbk, by intro _ _ _ e; simp at e⟩
+  | fork c => exact ⟨Or.inr rfl, rfl, by intro _ _ _ e; simp [idStep] at e⟩
+  | exec => exact ⟨Or.inl rfl, rfl, by intro _ _ _ e; simp [idStep] at e⟩
+  | otherVfork a =>
+    have : idStep {} s (.otherVfork a) = s := by simp [idStep]
+    rw [this]; exact ⟨hc, hb, hs⟩
+
+theorem idRun_inv : ∀ (ops : List IdOp) {s : Ident}, IdInv s → IdInv (idRun {} s ops)
+  | [], _, h => h
+  | o :: os, _, h => idRun_inv os (idStep_inv h o)
+
 end Uft.Shmem
